@@ -102,7 +102,7 @@ func ssaVttClaimed(src *astisub.Subtitles) string {
 
 // The sources for which C07_vtt_to_ssa_styled claims the text survives (its hypothesis doc_repr of the conversion, as far as
 // the text is concerned): at least one line per cue, no braces, no backslash-n / backslash-N, no white space at the ends
-// of a line, a speaker name without comma.
+// of a line (a speaker name WITH a comma is included since the library fix of finding F1: the text must survive).
 func vttSsaClaimed(src *astisub.Subtitles) string {
 	for _, it := range src.Items {
 		if it.StartAt < 0 || it.EndAt < 0 {
@@ -113,7 +113,7 @@ func vttSsaClaimed(src *astisub.Subtitles) string {
 		}
 		for _, l := range it.Lines {
 			v, t := l.VoiceName, l.String()
-			if strings.ContainsAny(v, ",\r\n") || v != strings.TrimSpace(v) {
+			if strings.ContainsAny(v, "\r\n") || v != strings.TrimSpace(v) { // a comma is fine since the fix of F1: written as a semicolon
 				return "speaker name not expressible in the Name column"
 			}
 			if strings.ContainsAny(t, "{}\r\n") || strings.Contains(t, "\\n") || strings.Contains(t, "\\N") {
